@@ -23,7 +23,7 @@ package liveness
 // Explicit don't-cares: cache hits are never demanded (the property says "only
 // if"); the returned error value; which of several in-lifetime measurements is
 // served when two probes of one address overlapped (counted as a probe, not
-// judged); ages within 1 ms of a lifetime; ports (verdicts are per address, as
+// judged); ages strictly between a lifetime and the lifetime + 1 ms; ports (verdicts are per address, as
 // in the property; the port only has to reach the probe unchanged).
 
 import (
@@ -565,7 +565,8 @@ func (w *c18World) query(task string, a, port int) bool {
 		same = true
 		if age < w.life[v] {
 			ok = true
-		} else if age < w.life[v]+time.Millisecond {
+		} else if age > w.life[v] && age < w.life[v]+time.Millisecond {
+			// (an age of exactly the lifetime is judged: "less than the lifetime ago" excludes it)
 			border = true
 		}
 	}
@@ -733,12 +734,12 @@ func c18SysConfs(full bool) []c18Conf {
 func c18SysOps(full bool) (int, []c18Op) {
 	if !full {
 		return 3, []c18Op{{kind: 0, a: 0, port: 443}, {kind: 0, a: 1, port: 443}, {kind: 0, a: 2, port: 443}, {kind: 1, a: 0},
-			{kind: 2, d: c18N + time.Millisecond}, {kind: 2, d: c18L + time.Millisecond}, {kind: 3}}
+			{kind: 2, d: c18N}, {kind: 2, d: c18L}, {kind: 3}} // exactly one lifetime: no longer "less than the lifetime ago"
 	}
 	return 4, []c18Op{{kind: 0, a: 0, port: 443}, {kind: 0, a: 1, port: 443}, {kind: 0, a: 2, port: 443}, {kind: 0, a: 3, port: 443}, {kind: 0, a: 0, port: 80},
 		{kind: 1, a: 0},
-		{kind: 2, d: time.Second + 7*time.Millisecond}, {kind: 2, d: c18N - time.Millisecond}, {kind: 2, d: c18N + time.Millisecond},
-		{kind: 2, d: c18L - time.Millisecond}, {kind: 2, d: c18L + time.Millisecond}, {kind: 3}}
+		{kind: 2, d: time.Second + 7*time.Millisecond}, {kind: 2, d: c18N - time.Millisecond}, {kind: 2, d: c18N},
+		{kind: 2, d: c18L - time.Millisecond}, {kind: 2, d: c18L}, {kind: 3}}
 }
 
 const c18SysLen = 5
@@ -855,12 +856,12 @@ func c18SequentialBody(r *sim.Run, systematic bool) {
 	if w.clt == nil {
 		r.Probe("uncached_tester")
 	}
-	// time steps relative to the configured lifetimes, each at least 1 ms away from them
+	// time steps relative to the configured lifetimes: 1 ms below, 1 ms above and exactly the lifetime
 	deltas := []time.Duration{time.Second + 7*time.Millisecond, 250*time.Millisecond + 3*time.Millisecond}
 	big := 5 * time.Second
 	for v := 1; v >= 0; v-- {
 		if w.enabled[v] && w.life[v] > 2*time.Millisecond {
-			deltas = append(deltas, w.life[v]-time.Millisecond, w.life[v]+time.Millisecond, w.life[v]/2+time.Millisecond)
+			deltas = append(deltas, w.life[v]-time.Millisecond, w.life[v]+time.Millisecond, w.life[v]/2+time.Millisecond, w.life[v])
 			if w.life[v] > big {
 				big = w.life[v]
 			}
@@ -959,7 +960,7 @@ func c18Concurrent(r *sim.Run, systematic bool) {
 		}
 		probeD = []time.Duration{0, 0, 750 * time.Millisecond}[tp.Choose("probe-duration", 3)]
 		ntask := 2 + tp.Choose("ntask", 3)
-		deltas := []time.Duration{time.Second + 7*time.Millisecond, c18N + time.Millisecond, c18L + time.Millisecond, c18N - time.Millisecond, 31*time.Second + 13*time.Millisecond}
+		deltas := []time.Duration{time.Second + 7*time.Millisecond, c18N + time.Millisecond, c18L + time.Millisecond, c18N - time.Millisecond, 31*time.Second + 13*time.Millisecond, c18N, c18L}
 		var table []c18Op
 		for rep := 0; rep < 3; rep++ {
 			for a := 0; a < naddr; a++ {
@@ -1143,7 +1144,7 @@ func TestVerifC18(t *testing.T) {
 			"Oracle: measurement-history model (see file header); concurrent runs additionally: no deadlock, no panic, all queries return. non-trivial = an answer was given from the cache, or an address was re-probed, or (concurrent) two operations overlapped; distinct = configuration + operation sequence (sequential) or scenario + schedule signature (concurrent)",
 		Assume: []string{"harness test files built with //go:debug asynctimerchan=0",
 			"a measurement's time is the completion time of the probe call; an answer is judged against the start of its query (an entry that was fresh when the query began may be returned a little later)",
-			"ages within 1 ms above a lifetime are not judged (> versus >= is never decisive)",
+			"an age of exactly the lifetime is judged (not less than the lifetime ago: the verdict must be measured again); ages strictly between the lifetime and the lifetime + 1 ms are not judged",
 			"quiescent point for the capacity bound = no query / clean-up in flight (sequential: after every operation; concurrent: whenever all tasks are between operations, and at the end)",
 			"LRU recency model: answering from a cache or storing a measurement counts as a use of that address in that cache",
 			"lock operations of pkg/station/liveness are redirected to the simulator by the seamgen overlay; code between two lock operations / probes runs atomically; golang-lru itself is not instrumented",
